@@ -370,7 +370,7 @@ def fileOk (o : Opts) (hdr0 : List Str) (f : List GLine) : Bool :=
    else f.all (fun l => !l.isHeader))
 
 /-- the same shape without the demand on the last written field of a row (rows ending in empty
-    fields): what the driver demands of the implementation; the theorems assume `fileOk` -/
+    fields); `fromFile_relation_wide` covers it -/
 def rowOkWide (o : Opts) (fs : List Field) : Bool :=
   fs.all Field.ok &&
   (match fs.head? with
@@ -837,11 +837,11 @@ def handleParse (req : Json) : R Json := do
         ("parse: dict is the relation of the rows", parseHolds e act)]
     | none => none
   let mh : Bool := match f.gram with
-    | some g => !fileOk o hdr0 g || holds (α := Rat) (.parse o hdr0 proc g) (model (.parse o hdr0 proc g))
+    | some g => !fileOkWide o hdr0 g || holds (α := Rat) (.parse o hdr0 proc g) (model (.parse o hdr0 proc g))
     | none => true
   pure (answer v (sameMapping mres act) (resultToJson (fun m => textMappingToJson (textMapping m)) mres)
     [("guarded", .bool spec.isSome), ("model_holds", .bool mh),
-     ("in_theorem_guard", .bool (match f.gram with | some g => fileOk o hdr0 g | none => false))])
+     ("strict_guard", .bool (match f.gram with | some g => fileOk o hdr0 g | none => false))])
 
 /-- what a written-and-reloaded file can show: metadata whose entries are all empty reads back absent -/
 def normFile (t : Table Rat) : Table Rat :=
